@@ -71,6 +71,7 @@ func (x *Exec) callFuncValue(st *State, fv VFunc, args []Value, in ssa.Instructi
 	if fv.TagOf != nil {
 		// factory summary: returns a fresh zero message of the given dynamic type
 		o := newObj("dyn", nil, "factory-result", "fresh")
+		o.BornIn = x.currentLoop(st, in)
 		st.heap[o] = &Content{Tag: fv.TagOf, MV: zeroMV(fv.TagOf)}
 		st.alloc = Add(st.alloc, IntC(256))
 		st.allocC += 256
